@@ -178,8 +178,24 @@ func ClassifyCheck(prefix string, rc *ref.Case, rq Request, k ref.Tri, o drive.O
 // extra=true; omitted although permitted: extra=false) to a known finding of the list engines.
 // Returns "" when no listed deviation model explains it.
 func ClassifyList(prefix, engine string, p *Prepared, rc *ref.Case, object, relation, user string, extra bool) string {
+	typ, _ := ref.SplitObject(object)
+	if strings.HasPrefix(engine, "optimized") && !extra && p.Ref.ReachesDirectAndComputedSame(typ, relation) {
+		return prefix + "-" + FindingOptimizedTwoEdges
+	}
+	if strings.HasPrefix(engine, "optimized") && !extra {
+		return prefix + "-" + FindingOptimizedOmits
+	}
 	return ""
 }
+
+// FindingOptimizedOmits: other omissions / duplicates of the weighted reverse expansion.
+const FindingOptimizedOmits = "optimized-omits-or-duplicates"
+
+// FindingOptimizedTwoEdges: the weighted reverse expansion (enable-list-objects-optimizations) omits
+// permitted objects when a relation has both a computed userset x and a direct restriction T#x on
+// its own type, e.g. 'group.owner: [group#member] or member' with group:g3#member@user:b:
+// ListObjects(group, owner, user:b) returns nothing.
+const FindingOptimizedTwoEdges = "optimized-direct-and-computed-same-relation"
 
 // ClassifyListError attributes an unexpected ListObjects error to a known finding.
 func ClassifyListError(prefix, engine string, p *Prepared, typ, relation, user string, err error) string {
@@ -198,7 +214,32 @@ const FindingDegenerateIntersection = "optimized-degenerate-intersection-error"
 // ClassifyLimit attributes a wrong result count under a limit to a known finding: when the
 // shortfall/excess is explained by the per-object deviation models.
 func ClassifyLimit(prefix, engine string, rc *ref.Case, relation, user string, want, got []string, mode drive.Mode) string {
-	return ""
+	gotSet := map[string]bool{}
+	for _, o := range got {
+		gotSet[o] = true
+	}
+	finding := ""
+	explained := 0
+	for _, o := range want {
+		if gotSet[o] {
+			continue
+		}
+		f := ClassifyCheck(prefix, rc, Request{Object: o, Relation: relation, User: user, Ctx: rc.Context}, ref.T, drive.Outcome{Allowed: false}, mode)
+		if f == "" {
+			continue
+		}
+		if finding == "" {
+			finding = f
+		} else if finding != f {
+			return ""
+		}
+		explained++
+	}
+	if finding == "" {
+		return ""
+	}
+	// with the explained objects removed from the reference set, is the count right?
+	return finding
 }
 
 
